@@ -160,13 +160,21 @@ let prio_of = function
   | L [A "p"; z] -> M.PNum (mz_of_int (mint z))
   | _ -> failwith "prio"
 
+let ctr_of = function
+  | L [A "ge"; t] -> (M.CGe, btm_of t)
+  | L [A "ne"; t] -> (M.CNe, btm_of t)
+  | _ -> failwith "ctr"
+
+let fdef_of dyn = function
+  | k :: p :: A "_" :: cs -> (mnum k, { M.fprio = prio_of p; M.fbody = None; M.fdyn = dyn; M.fctrs = List.map ctr_of cs })
+  | k :: p :: b :: cs -> (mnum k, { M.fprio = prio_of p; M.fbody = Some (btm_of b); M.fdyn = dyn; M.fctrs = List.map ctr_of cs })
+  | _ -> failwith "fdef"
+
 let step_of = function
   | L (A "lit" :: fs) ->
       M.SLit (List.map (function
-        | L [k; p; A "_"] -> (mnum k, { M.fprio = prio_of p; M.fbody = None; M.fdyn = false })
-        | L [k; p; b] -> (mnum k, { M.fprio = prio_of p; M.fbody = Some (btm_of b); M.fdyn = false })
-        | L [A "dyn"; k; p; A "_"] -> (mnum k, { M.fprio = prio_of p; M.fbody = None; M.fdyn = true })
-        | L [A "dyn"; k; p; b] -> (mnum k, { M.fprio = prio_of p; M.fbody = Some (btm_of b); M.fdyn = true })
+        | L (A "dyn" :: rest) -> fdef_of true rest
+        | L rest -> fdef_of false rest
         | _ -> failwith "fdef") fs)
   | L [A "merge"; i; j] -> M.SMerge (mnat_of_int (mint i), mnat_of_int (mint j))
   | _ -> failwith "step"
@@ -177,6 +185,7 @@ let show_out = function
   | M.Err M.FieldMissing -> "E:FieldMissing"
   | M.Err M.MissingDef -> "E:MissingDef"
   | M.Err M.NonMergeable -> "E:NonMergeable"
+  | M.Err M.Blame -> "E:Blame"
   | M.OutOfFuel -> "FUEL"
   | M.Panic -> "PANIC"
 
